@@ -16,7 +16,7 @@ import random
 import subprocess
 import sys
 
-from harness import common, tlc, runner, report
+from harness import common, tlc, runner, report, peers
 from checks import rating
 
 LAWS = ['LevelOnlyRemoves', 'ColourOnlyWraps', 'BatchOnlyDrops', 'NoRewrite']
@@ -34,6 +34,9 @@ def replay_buffer(e):
         op = c['op']
         if op == 'print':
             getattr(out, c['lv'])(c['text'], always_print=c['always'])
+        elif op == 'pair':
+            out.info('R: ', line_ended=False)           # the way a policy audit prints its verdict: "Result: " + verdict at its own level
+            getattr(out, c['lv'])(c['text'])
         elif op == 'head':
             out.head(c['text'])
         elif op == 'sep':
@@ -53,7 +56,7 @@ def render(lines):
         t = ln['text']
         if ln['col']:
             t = '\033[0;%dm%s\033[0m' % (COL[ln['lv']], t)
-        res.append(t)
+        res.append(ln.get('pre', '') + t)
     return '\n'.join(res)
 
 
@@ -152,6 +155,7 @@ def run(tier):
         else:
             ck.cov['traces_validated_against_impl'] += 1
     cli_leg(ck, tier, rnd)
+    modes_leg(ck)
     targets_leg(ck, tier, rnd)
     repeated_policy_leg(ck, rnd)
     seeds_leg(ck, tier)
@@ -252,6 +256,70 @@ def cli_leg(ck, tier, rnd):
             ck.violation('json-compact-vs-indented', '-j and -jj parse to different values', {'key': k})
     ck.sample({'peer': {x: cases[2][x] for x in ('kex', 'key', 'enc', 'mac')}, 'expected_status': expected[cases[2]['id']]['status'],
                'findings_at_warn': sorted(findings_of_exp(expected[cases[2]['id']], 'warn'))[:6]})
+
+
+def modes_leg(ck):
+    """The other kinds of audit under every combination of the output options: SSH-1 peers (with and without failing entries) and
+    policy audits (satisfied and violated).  Whatever is printed, the run ends with the status of the plain run, JSON output is one
+    document, and nothing but the report is printed (no traceback)."""
+    import struct as _struct        # noqa
+    from checks import c08
+    H = c08.healthy()
+    pol_ok = ('name = "C15"\nversion = 1\nhost keys = ssh-ed25519\nkey exchanges = curve25519-sha256, kex-strict-s-v00@openssh.com\nciphers = aes256-gcm@openssh.com\n'
+              'macs = hmac-sha2-256-etm@openssh.com\n')
+    pol_bad = pol_ok.replace('aes256-gcm@openssh.com', 'aes256-ctr')
+    subjects = []
+    for tag, cm, am in (('ssh1-clean', 0x48, 0x0c), ('ssh1-failing-cipher', 0x2c, 0x0c), ('ssh1-failing-auth', 0x48, 0x0e), ('ssh1-none-cipher', 0x09, 0x4c)):
+        cfg = peers.ServerCfg(banner=b'SSH-1.5-OldServer_1.2', ssh1={'cmask': cm, 'amask': am}, wrong_version_text=b'Protocol major versions differ.')
+        subjects.append((tag, {'servers': {(rating.HOST, 22): cfg}}, ['-1', rating.HOST]))
+    subjects.append(('policy-satisfied', {'servers': {(rating.HOST, 22): H['warn']}, 'files': {'policy.txt': pol_ok}}, ['--skip-rate-test', '-P', '{tmp}/policy.txt', rating.HOST]))
+    subjects.append(('policy-violated', {'servers': {(rating.HOST, 22): H['warn']}, 'files': {'policy.txt': pol_bad}}, ['--skip-rate-test', '-P', '{tmp}/policy.txt', rating.HOST]))
+    optsets = list(itertools.product((False, True), (False, True), (False, True), ('info', 'warn', 'fail'), ('text', 'j', 'jj')))
+    scs, meta = [], []
+    for tag, world, tail in subjects:
+        for (b, v, n, lvl, fmt) in optsets:
+            args = (['-b'] if b else []) + (['-v'] if v else []) + (['-n'] if n else []) + ['-l', lvl] + ({'text': [], 'j': ['-j'], 'jj': ['-jj']}[fmt])
+            scs.append(dict(world, argv=args + tail))
+            meta.append((tag, (b, v, n, lvl, fmt)))
+    results = runner.run_many(scs)
+    ref = {}
+    for (tag, o), r in zip(meta, results):
+        if o == (False, False, True, 'info', 'text'):
+            ref[tag] = r
+    for (tag, o), sc, r in zip(meta, scs, results):
+        b, v, n, lvl, fmt = o
+        ck.evaluated()
+        if r.get('harness_error') or r.get('hang'):
+            ck.violation('run-did-not-complete mode=%s' % tag.split('-')[0], '%s under %r did not complete' % (tag, o), {'argv': sc['argv']})
+            continue
+        base = ref[tag]
+        replay = {'subject': tag, 'options': {'batch': b, 'verbose': v, 'nocolors': n, 'level': lvl, 'format': fmt}, 'argv': sc['argv'], 'exit': r['exit'],
+                  'plain_run_exit': base['exit'], 'stdout': r['stdout'][-2500:]}
+        if base['exit'] not in (0, 2, 3):
+            raise common.Machinery('the plain %s run ends with status %r' % (tag, base['exit']))
+        if 'Traceback (most recent call last)' in r['stdout'] or r.get('uncaught'):
+            exc = [l for l in (r['stdout'] + (r.get('uncaught') or '')).split('\n') if l and not l.startswith(' ')][-1][:60]
+            ck.violation('options-crash-the-audit mode=%s %s' % (tag.split('-')[0], _generic(o)), '%s under %r: the run prints a traceback (%s), status %r' % (tag, o, exc, r['exit']), replay)
+            continue
+        if r['exit'] != base['exit']:
+            ck.violation('status-depends-on-options mode=%s %s' % (tag.split('-')[0], _generic(o)), '%s: exit status %r under %r, %r in the plain run' % (tag, r['exit'], o, base['exit']), replay)
+            continue
+        if fmt in ('j', 'jj'):
+            try:
+                doc = json.loads(r['stdout'])
+            except ValueError:
+                ck.violation('json-not-one-document mode=%s' % tag.split('-')[0], '%s under %r: stdout is not one JSON document' % (tag, o), replay)
+                continue
+            if tag.startswith('policy') and doc.get('passed') != (tag == 'policy-satisfied'):
+                ck.violation('policy-verdict-depends-on-options %s' % _generic(o), '%s under %r: JSON says passed=%r' % (tag, o, doc.get('passed')), replay)
+                continue
+        elif tag.startswith('policy') and lvl == 'info':
+            shown = 'Passed' in r['stdout'] and 'Failed' not in r['stdout']
+            if shown != (tag == 'policy-satisfied'):
+                ck.violation('policy-verdict-depends-on-options %s' % _generic(o), '%s under %r: the result line shows %s' % (tag, o, 'Passed' if shown else 'not Passed'), replay)
+                continue
+        ck.cov['traces_validated_against_impl'] += 1
+        ck.nontrivial(('modes', tag, o))
 
 
 def targets_leg(ck, tier, rnd):
